@@ -7,7 +7,7 @@
     k >= 1, max_shift_steps >= 1 and unit-step slices ([op_ok]); validity of
     events holds for every history without that restriction. *)
 From Coq Require Import ZArith List Bool.
-From NS Require Gen.TrS Proofs.TrEquivS Gen.Tr Proofs.TrEquiv17.
+From NS Require Gen.TrS Proofs.TrEquivS Gen.Tr Proofs.TrEquiv17 Proofs.TrCode17.
 From NS Require Import Gen.G17 Model.Events Model.EventsPoly
                        Proofs.Events Proofs.EventsClasses Proofs.EventsPoly.
 Import ListNotations.
@@ -407,3 +407,19 @@ Theorem C17_source_performance_event_validator : forall t v a b,
   NS.Gen.Tr.tr_performance_event_validate t v a b = if Perf.ev_valid (t, v) then Some tt else None.
 Proof. exact NS.Proofs.TrEquiv17.tr_performance_event_validate_eq. Qed.
 Print Assumptions C17_source_performance_event_validator.
+
+(** The consistency clause stated DIRECTLY on the code as it reads now (Gen/TrS.v, re-translated from the source of
+    SimpleEventSequence.append / set_length on every run): no hand-written model occurs in these statements. *)
+Theorem C17_code_append_consistent : forall ev s0 s1 e ev' s1',
+  zlen ev = s1 - s0 ->
+  NS.Gen.TrS.trs_append ev s1 e = Some (ev', s1') ->
+  ev' = ev ++ [e] /\ zlen ev' = s1' - s0.
+Proof. exact NS.Proofs.TrCode17.code_append_consistent. Qed.
+Print Assumptions C17_code_append_consistent.
+
+Theorem C17_code_set_length_consistent : forall ev s0 s1 pd n fl ev' s1' s0',
+  0 <= n ->
+  NS.Gen.TrS.trs_set_length ev s1 pd s0 n fl = Some (ev', s1', s0') ->
+  zlen ev' = n /\ s1' - s0' = n /\ (if fl then s1' = s1 else s0' = s0).
+Proof. exact NS.Proofs.TrCode17.code_set_length_consistent. Qed.
+Print Assumptions C17_code_set_length_consistent.
